@@ -1315,6 +1315,14 @@ def _dict_decorators() -> Dict[str, Callable[[_FN], _FN]]:
         _tidy(update)
         return update
 
+    def __ior__(fn):
+        def __ior__(self, other):
+            self.update(other)
+            return self
+
+        _tidy(__ior__)
+        return __ior__
+
     l = locals().copy()
     l.pop("_tidy")
     return l
